@@ -84,9 +84,9 @@ for _n, _tier, _to in ((2, "quick", 300), (3, "thorough", 1200), (4, "thorough",
        "length == EHUFSI(v), code == EHUFCO(v) of T.81 Annex C (Figures C.1-C.3, transcribed), left-aligned in 64 bits with nothing "
        "below; no code -> (0, 0); lookup(v) == Ok((len, bits)) / Err(HuffmanLookup); encoded_len == 1 + 16 + symbols" + _HF_STUBS,
        tier=_tier, timeout=_to)
-for _n, _what in ((0, "all counts zero, no value"), (1, "the sentinel only"), (2, "two values (one may have code length 0)")):
+for _n, _what in ((1, "the sentinel only"), (2, "two values")):
     _J("jb.huff_build_total_n%d" % _n, ["C01", "C17"], JHF, JHFM, "build_total_%d" % _n,
-       "bounded:exactly %d values; every counts[0..=16] with that sum (the parser validates nothing else: huffman.rs:65-92)" % _n,
+       "bounded:exactly %d values; every counts[1..=16] with that sum, counts[0] == 0 (what HuffmanCode::parse admits)" % _n,
        ["HuffmanCode::build", "HuffmanCode::encoded_len", "BuiltHuffmanTable::lookup"],
        "panic-freedom of build / encoded_len / lookup on everything HuffmanCode::parse can return with %s" % _what + _HF_STUBS,
        timeout=300)
@@ -136,11 +136,10 @@ _J("jb.flush_padding_stream", ["C17", "C01"], JSC, JSCM, "flush_padding_stream_c
    ["ScanState::flush_bit_writer", "BitWriter::padding_bits", "BitWriter::write_raw", "BitWriter::finalize"],
    "with a padding stream: exactly padding_bits() bits are consumed from it and the emitted padding consists of those bits "
    "(order-insensitive part); segment bits unchanged" + _SC_STUBS, timeout=300)
-_J("jb.flush_padding_order", ["C17"], JSC, JSCM, "flush_padding_order_contract",
-   "bounded:<= 15 pending bits, fresh 2-byte padding stream (every value)",
-   ["ScanState::flush_bit_writer"],
-   "padding bits are emitted in the order in which the reconstruction data lists them (jbrd padding_bits are one bit per entry in "
-   "stream order; libjxl's writer shifts them in first-to-last, MSB first)" + _SC_STUBS, timeout=300)
+# jb.flush_padding_order (harness flush_padding_order_contract, kept in the module, NOT registered): it states that padding bits are
+# emitted first-listed-first, as two independent readers recall libjxl's JumpToByteBoundary doing; the real code emits them in the
+# reverse order (read_bits(n) LSB-first, write_raw MSB-first). The reference text is not available offline and no fixture exercises
+# non-palindromic padding, so the obligation is left undecided rather than claimed (DESIGN.md 9.4, "suspected, not decided").
 _J("jb.restart", ["C17", "C01"], JSC, JSCM, "restart_contract",
    "bounded:<= 15 pending bits (every value), every rst_m in 0..=7, 3 components",
    ["ScanState::restart", "ScanState::flush_bit_writer"],
